@@ -95,6 +95,11 @@ class PopUpTarget(WidgetDecoration[WrappedWidget]):
         self._pop_up = None
         self._current_widget = self._original_widget
 
+    def _invalidate(self) -> None:
+        # forget the cached overlay: it was built around the previous original widget
+        self._pop_up = None
+        super()._invalidate()
+
     def _update_overlay(self, size: tuple[int, int], focus: bool) -> None:
         canv = self._original_widget.render(size, focus=focus)
         self._cache_original_canvas = canv  # imperfect performance hack
